@@ -13,6 +13,7 @@ INJECT = {
 # crate-level attributes some harness modules need (prepended to the crate root in the scratch copy)
 PREPEND = {
     "star-sharks": ("sharks/src/lib.rs", "#![cfg_attr(kani, feature(allocator_api))]\n"),
+    "sta-rs": ("star/src/lib.rs", "#![cfg_attr(kani, recursion_limit = \"512\")]\n"),
 }
 _injected = set()
 
